@@ -434,7 +434,10 @@ V6_BOUNDARY = ["::", "::1", "ffff:ffff:ffff:ffff:ffff:ffff:ffff:ffff", "2001:db8
                "1:2:3:4:5:6:7:8", "0:2:3:4:5:6:7:8", "1:2:3:4:5:6:7:0", "1::8", "1:0:3:4:5:6:7:8", "1:2:3:4:5:6:0:8",
                "0:0:0:0:0:fffe:102:304", "0:0:0:0:1:ffff:102:304", "::fffe:ffff:1.2.3.4", "8000::", "::8000:0",
                "a:b:c:d:e:f:0:0", "0:0:a:b:c:d:e:f", "abcd:ef01:2345:6789:abcd:ef01:2345:6789", "ff02::1:ff00:0",
-               "0:0:0:1::", "2001:db8:0:0:1::1", "2001:db8::1:0:0:1", "0:1:0:1:0:1:0:1", "::ffff:102:304"]
+               "0:0:0:1::", "2001:db8:0:0:1::1", "2001:db8::1:0:0:1", "0:1:0:1:0:1:0:1", "::ffff:102:304",
+               # NOT IPv4-mapped although their text starts like a mapped address: ffff is the 4th or 5th group
+               "::ffff:1:2:3", "::ffff:0:0:1", "::ffff:0:10.0.0.1", "0:0:0:ffff:a:b:c:d", "0:0:0:0:ffff:1:2:3",
+               "::ffff:0:0:0", "::ffff:0:0.2.0.3"]
 V6_MASKS = [None, None, 0, 1, 7, 8, 9, 31, 32, 63, 64, 65, 95, 96, 97, 119, 120, 127, 128]
 MAC_BOUNDARY = ["00:00:00:00:00:00", "ff:ff:ff:ff:ff:ff", "01:23:45:67:89:ab", "0a:0b:0c:0d:0e:0f", "10:20:30:40:50:60",
                 "a0:b0:c0:d0:e0:f0", "de:ad:be:ef:00:01", "09:0a:99:9a:a9:aa", "f0:0f:1f:f1:00:ff"]
@@ -743,7 +746,7 @@ def gen(rng, tier, mult=1):
     # fixed lists first: every listed malformed string and every boundary address through everything
     for fam, lst in [("v4", V4_MALFORMED + V4_BOUNDARY + [b + "/24" for b in V4_BOUNDARY[:6]]),
                      ("v6", V6_MALFORMED + V6_BOUNDARY + [b + "/64" for b in V6_BOUNDARY[:8]]),
-                     ("ip", V4_MALFORMED + V6_MALFORMED + V6_BOUNDARY[:12] + V4_BOUNDARY[:4]),
+                     ("ip", V4_MALFORMED + V6_MALFORMED + V6_BOUNDARY + V4_BOUNDARY[:4] + ["0.2.0.3", "0.12.0.13"]),
                      ("mac", MAC_MALFORMED + MAC_BOUNDARY)]:
         for s in lst:
             yield from all_calls(rng, fam, s, "listed", full_mac=(fam == "mac" and s in MAC_BOUNDARY))
